@@ -239,7 +239,8 @@ func (g *treeGen) leaf() Node {
 func (g *treeGen) stack(depth int) Node {
 	k := []string{"AND", "OR", "NOT", "LIST", "AND", "OR", "LIST", "BASIC"}[g.rng.Intn(8)]
 	n := Node{"t": "stk", "k": k, "form": "native", "paren": g.rng.Intn(3) == 0, "fold": g.rng.Intn(3) == 0,
-		"nspad": g.rng.Intn(3) == 0, "lonce": g.rng.Intn(4) == 0, "sym": []any{}, "delim": []any{}, "enc": g.enc()}
+		"nspad": g.rng.Intn(3) == 0, "lonce": g.rng.Intn(4) == 0, "sym": []any{}, "delim": []any{}, "enc": g.enc(),
+		"neg": false, "fwd": false, "mtx": false, "cap": 0}
 	if k != "LIST" && g.rng.Intn(3) == 0 {
 		n["sym"] = g.toks(1, 2, []string{"&", "|", "!", "+", "U2"})
 	}
